@@ -77,3 +77,9 @@ check("C12", "fault_enumeration", "runtime monitoring with fault injection at ev
       "or pass its result oracle; then lock state, close(), connect() to the healed device, the packet store's content and a full replay of the scenario are checked.",
       "Trusted: the in-memory transport's fault injector; lock and store state are read from the objects' attributes after the operation ended (invariant at a quiescent point).",
       "DESIGN.md section 4 C12")
+check("C15", "exploration", "runtime monitoring: peer-side message history vs. full-write reference run under short-writing transports; real loopback TCP with constrained socket buffers",
+      "The receiving side decides: the simulator's parser and filesystem see exactly what crossed the (in-memory or real TCP) transport. In-memory transports accept arbitrary "
+      "short counts per call; real runs push MiB-sized files through TcpTransport on a non-blocking socket with tiny SO_SNDBUF against a slow reader, where send() really is short "
+      "(hundreds of short sends are counted per run).",
+      "Trusted: the kernel's loopback TCP; SO_SNDBUF/SO_RCVBUF shrinking is best effort (the number of short sends actually observed is reported and has a floor).",
+      "DESIGN.md section 4 C15")
